@@ -45,6 +45,59 @@ def _apply(root: str, file: str, old: str, new: str) -> Optional[Dict[str, str]]
     return {file: src.replace(old, new)}
 
 
+def patch_edits(diff_text: str):
+    """Unified diff -> list of (file, old block, new block) edits, one per hunk (applied by exact text match, so a hunk whose
+    context has changed makes the variant 'not applicable' instead of being mis-applied)."""
+    edits = []
+    cur = None
+    old: List[str] = []
+    new: List[str] = []
+
+    def flush():
+        if cur is not None and (old or new):
+            edits.append((cur, "".join(old), "".join(new)))
+
+    for line in diff_text.splitlines(keepends=True):
+        if line.startswith("+++ "):
+            flush()
+            old, new = [], []
+            path = line[4:].strip()
+            cur = path[2:] if path.startswith("b/") else path
+        elif line.startswith("--- ") or line.startswith("diff ") or line.startswith("index "):
+            continue
+        elif line.startswith("@@"):
+            flush()
+            old, new = [], []
+        elif cur is not None and line.startswith("-"):
+            old.append(line[1:])
+        elif cur is not None and line.startswith("+"):
+            new.append(line[1:])
+        elif cur is not None and line.startswith(" "):
+            old.append(line[1:])
+            new.append(line[1:])
+        elif cur is not None and line.strip() == "":
+            old.append(line)
+            new.append(line)
+    flush()
+    return edits
+
+
+def seed_variants(prop: str):
+    """Every filed seeded change of this property (/verif/seeded/<prop>-*/patch.diff) as a self-test variant."""
+    base = os.path.join(os.path.dirname(os.path.dirname(os.path.abspath(__file__))), "seeded")
+    out = []
+    if not os.path.isdir(base):
+        return out
+    for d in sorted(os.listdir(base)):
+        if not d.startswith(prop + "-"):
+            continue
+        pf = os.path.join(base, d, "patch.diff")
+        if os.path.exists(pf):
+            with open(pf, encoding="utf-8") as fh:
+                out.append((f"seeded change {d}", patch_edits(fh.read()), prop))
+    return out
+
+
 def _run_variant(args) -> Dict[str, Any]:
     prop, root, kind, name, edits, expect = args
     from .check import load_rules, run_rules
@@ -90,6 +143,8 @@ def run(prop: str, mod, root: str, baseline_findings, jobs: int = 16) -> Dict[st
     tasks = []
     for m in getattr(cat, "MUTANTS", []):
         name, edits, expect = _norm(m)
+        tasks.append((prop, root, "mutant", name, edits, expect))
+    for name, edits, expect in seed_variants(prop):
         tasks.append((prop, root, "mutant", name, edits, expect))
     for n in getattr(cat, "NEUTRALS", []):
         name, edits, _ = _norm(n, neutral=True)
